@@ -30,7 +30,9 @@ Theorem C15_initial_path_ok : forall c, wf_path (initial_path c) /\ c15_inv (ini
 Proof. exact initial_path_ok. Qed.
 Print Assumptions C15_initial_path_ok.
 
-Require Import LV.PathPreempt.
+(* ==== appended by tools/mkprops.py (APPEND table) ==== *)
+
+Require Import LV.Base LV.VV LV.VVFacts LV.Path LV.PathSpec LV.PathTerm LV.PathDistinct LV.PathApi LV.Prog LV.Objects LV.Exec LV.Atomic LV.Ops LV.Check LV.PathPreempt.
 
 (* Preemptions counted independently of the stored counter (PathPreempt.v) *)
 (* INDEPENDENT READING: the number of context switches away from a still-runnable thread, counted from the recorded schedule entries alone, never exceeds the stored preemption counter *)
@@ -68,4 +70,44 @@ Theorem C15_reachable_switches_le_bound :
        reach mb (Some n) ex p -> switches (branches p) <= n.
 Proof. exact reach_switches_le_bound. Qed.
 Print Assumptions C15_reachable_switches_le_bound.
+
+
+Require Import LV.Base LV.VV LV.VVFacts LV.Path LV.PathSpec LV.PathTerm LV.PathDistinct LV.PathApi LV.Prog LV.Objects LV.Exec LV.Atomic LV.Ops LV.Check LV.PathPreempt LV.ExecFacts LV.ExecFacts2 LV.ExecPreempt.
+
+(* The seeds that Execution::schedule really passes satisfy the hypothesis, so the bound holds for the whole model (ExecPreempt.v) *)
+(* the seed built by schedule keeps the running thread Active unless it is blocked or yielded, and contains no Pending / Visited *)
+Theorem C15_schedule_seed_ok :
+  forall (l : list thread) (curr : nat) (cur_th : thread),
+       nth_error l curr = Some cur_th -> seed_ok (Some curr) (sched_seed l curr cur_th).
+Proof. exact sched_seed_ok. Qed.
+Print Assumptions C15_schedule_seed_ok.
+
+(* every iteration of the model L from a stack at position 0: independently counted switches <= bound *)
+Theorem C15_L_iteration_switches_le_bound :
+  forall (fuel : nat) (p : prog) (pa : path) (bd : nat),
+       pos pa = 0 ->
+       pre_inv (branches pa) ->
+       c15_inv pa ->
+       bound pa = Some bd -> switches (branches (e_path (fst (iteration fuel p pa)))) <= bd.
+Proof. exact L_iteration_switches_le_bound. Qed.
+Print Assumptions C15_L_iteration_switches_le_bound.
+
+(* EVERY path of the exploration of EVERY program from the initial path has at most preemption_bound independently counted preemptions *)
+Theorem C15_L_explore_switches_le_bound :
+  forall (fuel : nat) (p : prog) (c : config) (n k : nat) (pk : path) (bd : nat),
+       preemption_bound c = Some bd ->
+       nth_error (explore (fun pa : path => e_path (fst (iteration fuel p pa))) n (initial_path c))
+         k = Some pk -> switches (branches pk) <= bd.
+Proof. exact L_explore_switches_le_bound. Qed.
+Print Assumptions C15_L_explore_switches_le_bound.
+
+(* non-vacuity: a two-thread program with bound 1 explores a path with exactly one counted switch *)
+Theorem C15_L_switches_nonvacuous :
+  finishes (fun pa : path => e_path (fst (iteration FUELP p_two_stores pa))) 100
+         (initial_path cfg_b1) = true /\
+       existsb (fun pk : path => switches (branches pk) =? 1) explored_two_stores = true /\
+       forallb (fun pk : path => switches (branches pk) <=? 1) explored_two_stores = true /\
+       1 < length explored_two_stores.
+Proof. exact L_switches_nonvacuous. Qed.
+Print Assumptions C15_L_switches_nonvacuous.
 
